@@ -1453,9 +1453,13 @@ class Parallel(Logger):
         callback. We rely on the thread-safety of dispatch_one_batch to protect
         against concurrent consumption of the unprotected iterator.
         """
-        if not self.dispatch_one_batch(self._original_iterator):
-            self._iterating = False
-            self._original_iterator = None
+        # The lock makes the update of the two attributes below atomic with
+        # respect to the one done by the thread that started the call in
+        # _start: otherwise _iterating can be left True for ever.
+        with self._lock:
+            if not self.dispatch_one_batch(self._original_iterator):
+                self._iterating = False
+                self._original_iterator = None
 
     def dispatch_one_batch(self, iterator):
         """Prefetch the tasks for the next batch and dispatch them.
@@ -1657,9 +1661,10 @@ class Parallel(Logger):
         # that pre_dispatch == "all", n_jobs == 1 or that the first batch
         # was very quick and its callback already dispatched all the
         # remaining jobs.
-        self._iterating = False
-        if self.dispatch_one_batch(iterator):
-            self._iterating = self._original_iterator is not None
+        with self._lock:
+            self._iterating = False
+            if self.dispatch_one_batch(iterator):
+                self._iterating = self._original_iterator is not None
 
         while self.dispatch_one_batch(iterator):
             pass
